@@ -5,16 +5,20 @@ import TracklibVerif.Lemmas.GraphR4
 import TracklibVerif.Lemmas.GraphWorld
 import TracklibVerif.Lemmas.GraphWorldQ
 import TracklibVerif.Lemmas.GraphAStarFix
+import TracklibVerif.Lemmas.GraphShared
 import Mathlib.Algebra.Order.Group.Int
 /-! # C06 — network shortest distances are the true minimum over permitted walks
 
 Property theorems only (helper lemmas: `Lemmas/Graph.lean`, `Lemmas/GraphStop.lean`, `Lemmas/GraphTable.lean`,
 `Lemmas/GraphSession.lean`, `Lemmas/GraphSessionQ.lean`, `Lemmas/PDict.lean`, `Lemmas/Heapq.lean`, `Lemmas/GraphPD.lean`,
-`Lemmas/GraphAStar.lean`, `Lemmas/GraphAStarFix.lean`, `Lemmas/GraphWorld.lean`).
+`Lemmas/GraphAStar.lean`, `Lemmas/GraphAStarFix.lean`, `Lemmas/GraphWorld.lean`, `Lemmas/GraphShared.lean`).
 The model (`Model/Graph.lean`) mirrors `Network.run_routing_forward` in Dijkstra mode and the API functions that
 read its result; `Model/GraphAStar.lean` adds the routing-method API (`setRoutingMethod`, `setAStarWeight`, the A* branch
 as coded, several `Network` objects with their own settings) — see the section "the routing-method API" below for
-which configurations the statement holds in. Weights live in any linearly ordered additive commutative monoid (`ℕ ℤ ℚ ℝ`, …) and are
+which configurations the statement holds in; `Model/GraphShared.lean` has several `Network` objects that hold the **same
+`Node` objects** (what `sub_network` returns; networks filled from one pool of nodes), i.e. one common store of routing
+flags of which every search resets its own network's part only — section "networks that share their `Node` objects".
+Weights live in any linearly ordered additive commutative monoid (`ℕ ℤ ℚ ℝ`, …) and are
 non-negative (`WFNet`); there is no bound on the size of the network. `Walk net s v c` is a walk of arcs, each
 traversed in a direction its orientation permits (`≥ 0`: source→target, `≤ 0`: target→source), of total
 weight `c`; `IsDist net s v y` says `y` is the minimum of those weights; the sentinel `-1` is `none`.
@@ -207,9 +211,10 @@ theorem sub_network_edges (net : Net W) (hnet : WFNet net) (s : Nat) (hs : s < n
 
 /-! ### one `Network` object used for a sequence of calls (`Model/GraphSession.lean`) -/
 
-/-- the reset of the routing flags: whatever `poids` / `visite` / `antecedent` the earlier calls (searches on this
-network, or on another network sharing the `Node` objects, as `sub_network` produces) left on the nodes of `NODES`,
-`__resetFlags` followed by `source.poids = 0` yields the initial labelling of a fresh search. -/
+/-- the reset of the routing flags: whatever `poids` / `visite` / `antecedent` the earlier searches on this network left
+on the nodes of `NODES` (no flag outside `NODES`: `CleanOutside`, part of the session invariant), `__resetFlags` followed by
+`source.poids = 0` yields the initial labelling of a fresh search. When another network holds the same `Node` objects
+(as `sub_network` produces) there *are* flags outside `NODES`: that case is `shared_nodes_search_pure` below. -/
 theorem search_starts_clean (order : List Nat) (st : St W) (s : Nat) (h : CleanOutside order st) :
     startFlags order st s = St.init s :=
   start_clean order st s h
@@ -262,6 +267,76 @@ theorem session_tables_sound (σ : Sess W) (h : SessOK σ) (op : Op W) (hnet : (
     (hu : TableSound σ.net σ.udict) (hp : ∀ tb, σ.prep = some tb → TableSound σ.net tb) :
     TableSound σ.net (exec σ op).1.udict ∧ ∀ tb, (exec σ op).1.prep = some tb → TableSound σ.net tb :=
   exec_tables_sound σ h op hnet hu hp
+
+/-! ### networks that share their `Node` objects (`Model/GraphShared.lean`)
+
+`sub_network` builds its result from the parent's own `Node` objects, and nothing stops a caller from adding nodes of one
+network to another: the routing flags (`poids`, `visite`, `antecedent`) of such networks live in ONE store, and
+`__resetFlags` of a network cleans only the nodes in its own `NODES`. The model of that situation is the code as it runs:
+`routeOnPD` = reset of the own nodes + the loop with the explicit `priority_dict` on a store in any state. -/
+
+/-- **a search on `Node` objects carrying ANY flags** — left by an earlier search of this network or of another network
+that holds the same objects (nodes of this network labelled / marked visited by a foreign search, foreign nodes
+labelled): the `output_dict` entries, and the flags it leaves on the nodes of its own `NODES`, are exactly those of the
+pure search `runForward` on its own graph; the flags of every other node are left untouched. (`order` = `NODES`; every edge
+of the network joins nodes of `NODES`, as `addEdge` guarantees.) This strengthens `search_starts_clean`, which needs the
+flags outside `NODES` to be clean. The seeded change "reset only the nodes labelled by the previous search of the same
+network" breaks exactly this. -/
+theorem shared_nodes_search_pure (net : Net W) (hnet : WFNet net) (order : List Nat) (hnodes : ∀ v ∈ order, v < net.n)
+    (hends : ∀ e ∈ net.edges, e.src ∈ order ∧ e.tgt ∈ order) (st : St W) (s : Nat) (hs : s ∈ order)
+    (tgt : Option Nat) (cut : Option W) :
+    (routeOnPD net order st s tgt cut).2 = (runForward net s tgt cut).2 ∧
+    (∀ v ∈ order, (routeOnPD net order st s tgt cut).1.d v = (runForward net s tgt cut).1.d v ∧
+                  (routeOnPD net order st s tgt cut).1.vis v = (runForward net s tgt cut).1.vis v ∧
+                  (routeOnPD net order st s tgt cut).1.pred v = (runForward net s tgt cut).1.pred v) ∧
+    (∀ v, v ∉ order → (routeOnPD net order st s tgt cut).1.d v = st.d v ∧
+                      (routeOnPD net order st s tgt cut).1.vis v = st.vis v ∧
+                      (routeOnPD net order st s tgt cut).1.pred v = st.pred v) :=
+  routeOnPD_obs net hnet order hnodes hends st s hs tgt cut
+
+/-- one call (any of `addNode` … `sub_network`) on a network whose `Node` objects carry any flags answers exactly as the
+same network with `Node` objects of its own (the one-object session model `exec`), and leaves the same object up to the
+flags. -/
+theorem shared_nodes_call_as_private (σ σ' : Sess W) (hc : SameCore σ σ') (h : SessOK σ') (op : Op W) :
+    (execSh σ op).2 = (exec σ' op).2 ∧ SameCore (execSh σ op).1 (exec σ' op).1 :=
+  execSh_eq_exec σ σ' hc h op
+
+/-- **sharing is unobservable.** Any program over a family of networks built on one pool of `Node` objects — `Network()`,
+`addNode` / `addEdge` with nodes of the pool, searches of every form, `all_shortest_distances`, `prepare`, `sub_network` whose
+result is kept and used like any other network (extracts of extracts included), `edge.weight = w` on an `Edge` object (which a
+network and its extracts share, and which every later search reads), in any interleaving — returns, call by
+call, what the same program returns when every network has `Node` objects of its own. -/
+theorem family_answers_as_private (n : Nat) (ops : List (FamOp W)) :
+    runFam (Fam.new n : Fam W) ops = runFamU n [] ops :=
+  (runFam_eq (Fam.new n) [] (famRel_new n) ops).1
+
+/-- **the property in a family.** In any state reached by any such program, on every network `k` of the family,
+`shortest_distance(s, t[, cut])` is the minimum weight over the permitted walks of *that network's* current graph — the
+sentinel iff there is none; with a cut-off the true distance whenever it is within it — whatever the other networks
+holding the same `Node` objects have searched in between. -/
+theorem family_distance_correct (n : Nat) (ops : List (FamOp W)) (k : Nat) (σ : Sess W)
+    (hk : (famAfter (Fam.new n : Fam W) ops).nets[k]? = some σ) (s t : Nat) (hs : s ∈ σ.order) (ht : t ∈ σ.order)
+    (cut : Option W) (ud : Bool) :
+    ∃ d, (execFam (famAfter (Fam.new n : Fam W) ops) (.on k (.dist s t cut ud))).2 = .val d ∧
+      (∀ y, IsDist σ.net s t y → Within cut y → d = some y) ∧ (¬ Reachable σ.net s t → d = none) ∧
+      (cut = none → ∀ y, d = some y ↔ IsDist σ.net s t y) ∧ (cut = none → (d = none ↔ ¬ Reachable σ.net s t)) := by
+  have hrel := (runFam_eq (Fam.new n : Fam W) [] (famRel_new n) ops).2
+  cases h2 : (famAfterU (Fam.new n : Fam W).n [] ops)[k]? with
+  | none => rw [(famRel_none hrel k).2 h2] at hk; cases hk
+  | some σ' =>
+    obtain ⟨hc, hok⟩ := hrel.2 k σ σ' hk h2
+    obtain ⟨c1, c2, c3, c4⟩ := hc
+    have hs' : s ∈ σ'.order := c2 ▸ hs
+    have ht' : t ∈ σ'.order := c2 ▸ ht
+    obtain ⟨a, _⟩ := execSh_eq_exec { σ with flags := (famAfter (Fam.new n : Fam W) ops).flags } σ' ⟨c1, c2, c3, c4⟩ hok (.dist s t cut ud)
+    refine ⟨shortestDistance σ.net s t cut, ?_, ?_, ?_, ?_, ?_⟩
+    · simp only [execFam, hk]
+      rw [a, c1]
+      exact (exec_dist_eq σ' hok s t hs' ht' cut ud).1
+    · rw [c1]; exact (shortest_distance_cut σ'.net hok.wf s t (hok.nodes s hs') cut).1
+    · rw [c1]; exact (shortest_distance_cut σ'.net hok.wf s t (hok.nodes s hs') cut).2
+    · intro hcut; subst hcut; rw [c1]; exact (shortest_distance_correct σ'.net hok.wf s t (hok.nodes s hs')).1
+    · intro hcut; subst hcut; rw [c1]; exact (shortest_distance_correct σ'.net hok.wf s t (hok.nodes s hs')).2
 
 /-! ### the queue: `heapq` (`Model/Heapq.lean`) and `priority_dict` with lazy deletion (`Model/PDict.lean`) -/
 
@@ -497,6 +572,29 @@ example : (runOps (Sess.new 3) demoOps).map (fun o => match o with | .val d => d
 example : (runOps (Sess.new 3) demoOps).map (fun o => match o with | .subnet ns es => (ns, es) | _ => ([], []))
     = [([], []), ([], []), ([], []), ([], []), ([], []), ([], []), ([], []), ([], []), ([0, 2], [1])] := by decide +kernel
 
+
+/-- a family: the chain 0 –1– 1 –1– 2 –1– 3 (network 0), its extract around node 0 with cut-off 1 (network 1 = {0, 1},
+holding the SAME `Node` objects), then: a search at the far end of network 0, a search in the extract, and searches in
+network 0 again — the labels the extract's search left on nodes 0 and 1 are not seen (the seeded change C06-7 returns 0
+for the distance 3 → 0 here) -/
+def demoFam : List (FamOp Int) :=
+  [.create, .on 0 (.addEdge ⟨0, 0, 1, 1, 0⟩), .on 0 (.addEdge ⟨1, 1, 2, 1, 0⟩), .on 0 (.addEdge ⟨2, 2, 3, 1, 0⟩),
+   .extract 0 0 (some 1), .on 0 (.dist 2 3 none false), .on 1 (.dist 0 1 none false), .on 0 (.dist 3 0 none false),
+   .on 0 (.dist 3 1 none false), .on 1 (.dist 1 0 (some 0) false), .on 1 (.dist 0 2 none false)]
+example : (runFam (Fam.new 4) demoFam).map (fun o => match o with | .val d => d | _ => none)
+    = [none, none, none, none, none, some 1, some 1, some 3, some 2, some 1, none] := by decide +kernel
+example : ((runFam (Fam.new 4) demoFam).map (fun o => match o with | .subnet ns es => (ns, es) | _ => ([], [])))[4]?
+    = some ([0, 1], [0]) := by decide +kernel
+/-- the store really is common: after the extract's search the flags of node 1 (a node of network 0) are the extract's -/
+example : ((famAfter (Fam.new 4) (demoFam.take 7)).flags.d 1, (famAfter (Fam.new 4) (demoFam.take 7)).flags.d 3)
+    = (some 1, some 1) := by decide +kernel
+example : runFam (Fam.new 4) demoFam = runFamU 4 [] demoFam := family_answers_as_private 4 demoFam
+/-- weights are attributes of the `Edge` objects, which the extract shares with its parent: after `edge.weight = 5` on the
+edge 0–1 both networks answer with the new weight (and a later `edge.weight = 0` is seen again) -/
+example : ((runFam (Fam.new 4) (demoFam.take 5 ++ [.on 1 (.dist 0 1 none false), .setWeight 0 5, .on 1 (.dist 0 1 none false),
+      .on 0 (.dist 0 2 none false), .setWeight 0 0, .on 0 (.dist 3 0 none false), .setWeight 1 (-1)])).drop 5).map
+      (fun o => match o with | .val d => d | .err => some (-1) | _ => none)
+    = [some 1, none, some 5, some 6, none, some 2, some (-1)] := by decide +kernel
 
 /-! ### a non-associative weight structure (`R4`, `Lemmas/GraphR4.lean`: a caricature of floating point) on which all of the above holds -/
 
